@@ -120,6 +120,16 @@ func init() {
 					}
 				}
 				x.check(stored, "func="+prog.FnName(fn)+" response.VersionVector=min", x.pos(c), "the response carries the minimum vector", "the response no longer carries the minimum vector returned by UpdateMinVersionVector")
+				// the row is maintained on every successful request unless the request opted out of GC:
+				// in particular the detach that Deactivate performs (push-only) must delete the row
+				optGC := x.P.Field("server/packs.PushPullOptions.DisableGC")
+				if optGC != nil {
+					for i, r := range successReturns(fn) {
+						x.guardedOrVia(fmt.Sprintf("func=%s ok-return#%d row-maintained-unless-DisableGC", prog.FnName(fn), i+1), r, []Cmp{isTrue(vpField(optGC))}, []ssa.Instruction{c},
+							"every successful request updates (or deletes) the client's version-vector row unless it opted out of GC",
+							"a request can succeed without UpdateMinVersionVector although GC is not disabled for it: the row of a client detached that way is never deleted and holds back garbage collection for everybody")
+					}
+				}
 			}
 			// (c) memdb row maintenance
 			if fn := x.fn(memPkg + ".(*DB).updateVersionVector"); fn != nil {
